@@ -50,6 +50,10 @@ type SchedResult struct {
 	CacheDiff      string // VERIF_DIFF: summary of the cache self-test for this exploration
 }
 
+// MaxCacheEntries bounds the memory of the state cache of one exploration (about 70 bytes per entry; several
+// explorations run side by side as shard processes).
+var MaxCacheEntries = 6_000_000
+
 // CacheDefault: the happens-before state cache is on for every exploration unless VERIF_NOCACHE is set (or the
 // configuration opts out).
 var CacheDefault = os.Getenv("VERIF_NOCACHE") == ""
@@ -158,7 +162,10 @@ func dfs(cfg SchedConfig) SchedResult {
 				if v, ok := cache[k]; ok && v >= rem {
 					return true
 				}
-				cache[k] = rem
+				// (the cache is capped: a state that is not remembered is merely explored again)
+				if _, ok := cache[k]; ok || len(cache) < MaxCacheEntries {
+					cache[k] = rem
+				}
 				return false
 			}
 		}
